@@ -593,9 +593,71 @@ def run_token(sc):
     return fails
 
 
+def run_relaunch(sc):
+    """
+    A synchronous launch (with TimeoutSeconds T, optionally a fixed child Name) whose child fails early is retried: the second child is launched while the
+    first launch's deadline has not passed yet and is still running when it does. The retried task completes exactly when *its* child ends.
+    """
+    from .. import world as W
+    fails = []
+    w = W.World(seed=15, tick=0.0)
+    w.eager_time = False
+    try:
+        w.add_engine("A")
+        d1, d2, T, iv = sc["d1"], sc["d2"], sc["timeout"], sc["interval"]
+        w.add_worker("childfn", lambda i, p, props: [(d1, {"errorType": "ChildErr", "errorMessage": "first attempt"})] if i == 0 else [(d2, {"got": p, "attempt": i})])
+        child_type = "EXPRESS" if sc["form"] == "sdk_sync" else sc["child_type"]
+        st, r = w.create_state_machine("child", {"StartAt": "C1", "States": {"C1": {"Type": "Task", "Resource": W.fn_arn("childfn"), "End": True}}}, type_=child_type)
+        if st != 200:
+            raise HarnessError("child machine refused: %r" % (r,))
+        params = {"StateMachineArn": W.sm_arn("child"), "Input": {"a": 1}}
+        if sc.get("name"):
+            params["Name"] = sc["name"]
+        launch = {"Type": "Task", "Resource": FORMS[sc["form"]], "Parameters": params, "TimeoutSeconds": T, "End": True,
+                  "Retry": [{"ErrorEquals": ["States.TaskFailed"], "IntervalSeconds": iv, "MaxAttempts": 1, "BackoffRate": 1.0}]}
+        st, r = w.create_state_machine("parent", {"StartAt": "L", "States": {"L": launch}})
+        if st != 200:
+            raise HarnessError("parent machine refused: %r" % (r,))
+        t0 = w.clock.now
+        st, r = w.start_execution(W.sm_arn("parent"), {"p": 1}, name="p1")
+        parent = r["executionArn"]
+        res = w.run(sc.get("schedule", ()), max_steps=4000, until=quiet(100))
+        pt = first_terminal(w, parent)
+        want_end = d1 + iv + d2
+        n_req = len(w.workers["childfn"].requests)
+        if n_req != 2:
+            fails.append(("relaunch:child-task-requests", "%d requests to the child's task, expected 2" % n_req))
+        if pt is None:
+            fails.append(("relaunch:parent-not-terminal", "parent never ended"))
+        else:
+            d = pt["body"]["detail"]
+            if d["status"] != "SUCCEEDED":
+                fails.append(("relaunch:parent-%s-%s" % (d["status"], d.get("error")), "the retried launch's child ends at +%.1f s (first launch at +0 with TimeoutSeconds %s, retry at +%.1f): parent ended %s %s at +%.3f" % (
+                    want_end, T, d1 + iv, d["status"], d.get("error"), pt["t"] - t0)))
+            else:
+                if abs(pt["t"] - t0 - want_end) > EPS:
+                    fails.append(("relaunch:completion-instant", "parent ended at +%.3f, the second child ends at +%.3f" % (pt["t"] - t0, want_end)))
+                out = json.loads(d["output"])
+                got = out.get("Output") if isinstance(out, dict) else None
+                if isinstance(got, str):
+                    try:
+                        got = json.loads(got)
+                    except ValueError:
+                        pass
+                if got != {"got": {"a": 1}, "attempt": 1}:
+                    fails.append(("relaunch:result-not-of-second-child", "task result %r" % (out,)))
+        for e in w.engine_exceptions:
+            fails.append(("engine-callback-exception:%s:%s" % (e["type"], e["where"]), json.dumps(e)))
+    finally:
+        w.close()
+    return fails
+
+
 def run_scenario(sc):
     sc = copy.deepcopy(sc)
     sc.pop("_log", None)
+    if sc["family"] == "relaunch":
+        return run_relaunch(sc)
     return run_child(sc) if sc["family"] == "child" else run_token(sc)
 
 
@@ -643,7 +705,11 @@ def strategies():
         "family": st.just("token"), "form": st.sampled_from(["invoke", "invoke", "child"]), "timeout": st.sampled_from([None, 6, 6]),
         "retry": st.booleans(), "execs": execs, "trunc": st.sampled_from([1, 2, 3, 5, 9, 30]), "schedule": sched,
     }).map(fix_token)
-    return st.one_of(child, child, token)
+    # second launch at d1+interval, still running at the first launch's deadline T, and over before its own: d1+interval < T < d1+interval+d2, d2 < T
+    relaunch = st.fixed_dictionaries({"family": st.just("relaunch"), "form": st.sampled_from(["sync", "sync2", "sdk_sync"]), "name": st.sampled_from([None, "kid", "kid"]),
+                                      "child_type": st.sampled_from(["STANDARD", "EXPRESS"]), "d1": st.sampled_from([0.5, 2]), "interval": st.sampled_from([1, 2]), "d2": st.sampled_from([6.25, 8.5]),
+                                      "timeout": st.sampled_from([9, 10]), "schedule": sched})
+    return st.one_of(child, child, child, child, token, token, token, token, relaunch)
 
 
 def fix_child(sc):
@@ -686,6 +752,8 @@ def excluded(sc):
 
 
 def nontrivial(sc):
+    if sc["family"] == "relaunch":
+        return True
     if sc["family"] == "child":
         if invalid_reason(sc):
             return True
@@ -706,6 +774,8 @@ def nontrivial(sc):
 
 
 def classes(sc):
+    if sc["family"] == "relaunch":
+        return ["family-relaunch", "form-" + sc["form"], "fixed-name" if sc.get("name") else "generated-name"]
     if sc["family"] == "child":
         c = ["family-child", "form-" + sc["form"], "resource-region-" + (sc.get("resource_region", "local") or "empty"), "shape-" + sc["shape"], "child-" + sc["child"], "parent-" + sc["parent_type"], "childtype-" + sc["child_type"]]
         r = invalid_reason(sc)
